@@ -286,6 +286,9 @@ func (u *Unit) specIdent(env *specEnv, x *ast.Ident) Val {
 		return boolVal("false")
 	case "nil":
 		return scalar("0", SInt, types.Typ[types.UntypedNil])
+	case "TZERO":
+		u.decls.declConst("TZERO", SInt)
+		return scalar("TZERO", SInt, nil)
 	}
 	if v, ok := env.vars[x.Name]; ok {
 		return v
@@ -749,6 +752,25 @@ func (u *Unit) specCall(env *specEnv, x *ast.CallExpr) Val {
 	case "dyntype":
 		v := u.specEval(env, x.Args[0])
 		return intVal(tApp("dyntype", v.S))
+	case "unbox":
+		// unbox(v, T): the value of Go type T stored in interface value v
+		v := u.specEval(env, x.Args[0])
+		var b strings.Builder
+		printNode(&b, u.eng.fset, x.Args[1])
+		_, T, _ := env.specType(b.String())
+		if T == nil {
+			env.fail("unbox: unknown type")
+		}
+		return u.unbox(env.st, v.S, T)
+	case "hastype":
+		v := u.specEval(env, x.Args[0])
+		var b strings.Builder
+		printNode(&b, u.eng.fset, x.Args[1])
+		_, T, _ := env.specType(b.String())
+		if T == nil {
+			env.fail("hastype: unknown type")
+		}
+		return boolVal(u.hasDynType(env.st, v.S, T))
 	case "typeid":
 		// typeid(T) : the dynamic type tag of Go type T
 		var b strings.Builder
